@@ -106,10 +106,21 @@ def cvtree(vars_):
   return clist([cpair(cN(COLCODE[c]), cnode(t)) for c, t in vars_.items()])
 
 
+TPREFIX = {'jit': 'Jit', 'remat': 'Checkpoint', 'mapvars': 'Map_variables'}
+TCODE = {'jit': 1000, 'remat': 2000, 'mapvars': 3000}       # class code of a transformed class = code of the class + this
+
+
 def parse_name(s):
-  """'K3_0' -> auto; otherwise explicit"""
-  if s.startswith('K') and '_' in s and s[1:].split('_')[0].isdigit() and s.split('_')[1].isdigit():
-    return ['auto', int(s[1:].split('_')[0]), int(s.split('_')[1])]
+  """'K3_0' -> auto; 'JitK3_0' -> auto of the transformed class; otherwise explicit"""
+  off = 0
+  for t, pre in TPREFIX.items():
+    if s.startswith(pre + 'K'):
+      off, s2 = TCODE[t], s[len(pre):]
+      break
+  else:
+    s2 = s
+  if s2.startswith('K') and s2.count('_') == 1 and s2[1:].split('_')[0].isdigit() and s2.split('_')[1].isdigit():
+    return ['auto', off + int(s2[1:].split('_')[0]), int(s2.split('_')[1])]
   return ['exp', s]
 
 
@@ -229,3 +240,104 @@ def suffix_hash(suffix, sep):
     else:
       m.update(int(x).to_bytes((int(x).bit_length() + 7) // 8, 'big'))
   return int.from_bytes(m.digest()[:4], 'big')
+
+
+# ---------------------------------------------------------------------------------------------
+# lifted transforms (C05): annotation of programs and their plain equivalents
+# ---------------------------------------------------------------------------------------------
+def add_lifts(rng, prog, n, kinds=('jit', 'remat', 'mapvars'), ctl=True):
+  """annotate some child statements with a class transform and add control-flow statements
+  ['ctl', x, kind, branches=[(stmts, ret)], arg_expr] whose branch bodies only set variables declared before."""
+  for cid, (body, ret) in list(prog['classes'].items()):
+    new = []
+    locals_ = []
+    declared = []
+    for s in body:
+      if s[0] == 'child' and rng.random() < 0.6:
+        s = s + [rng.choice(kinds)]
+      new.append(s)
+      if s[0] in ('param', 'var', 'perturb', 'let', 'call'):
+        locals_.append(s[1])
+      if s[0] == 'var':
+        declared.append((s[2], s[3], s[4]))
+      if ctl and s[0] in ('var', 'let', 'call') and rng.random() < 0.3:
+        kind = rng.choice(['cond', 'switch', 'while'])
+        nb = {'cond': 2, 'switch': 3, 'while': 1}[kind]
+        x = max([0] + [t[1] for t in new if t[0] in ('param', 'var', 'perturb', 'let', 'call', 'ctl')]) + 1
+        branches = []
+        # every branch writes the same variables (lax traces all branches: an immutable collection written by any
+        # branch raises under the lifted form, whatever branch is selected) and keeps their shapes
+        written = [d for d in declared if rng.random() < 0.6]
+        for _ in range(nb):
+          stmts = []
+          for col, nm, size in written:
+            e = gen_expr(rng, locals_, 1)
+            stmts.append(['varset', col, nm, ['add', e, ['const', [0] * n]] if size != 1 else ['sum', e]])
+          branches.append([stmts, ['add', ['in'], gen_expr(rng, locals_, 1)] if rng.random() < 0.7 else ['in']])
+        for col, nm, size in written:      # give the variables their declared shape before the control statement (a loop carry must keep its shape)
+          e = gen_expr(rng, locals_, 1)
+          new.append(['varset', col, nm, ['add', e, ['const', [0] * n]] if size != 1 else ['sum', e]])
+        new.append(['ctl', x, kind, branches, ['add', gen_expr(rng, locals_, 1), ['const', [0] * n]]])
+        locals_.append(x)
+    prog['classes'][cid] = (new, ret)
+  return prog
+
+
+def gen_sel(rng):
+  """the branch every cond / switch statement takes and the trip count of every while statement in one run"""
+  return {'cond': rng.randint(0, 1), 'switch': rng.randint(0, 2), 'while': rng.randint(1, 3)}
+
+
+def subst_in(e, z):
+  if e[0] == 'in':
+    return ['loc', z]
+  if e[0] in ('add', 'mul'):
+    return [e[0], subst_in(e[1], z), subst_in(e[2], z)]
+  if e[0] == 'sum':
+    return ['sum', subst_in(e[1], z)]
+  return e
+
+
+def plain_equivalent(prog, sel):
+  """the untransformed program with the control flow resolved for the selectors sel: class transforms become classes with the
+  transformed class name, cond / switch become the selected branch, while becomes its unrolling"""
+  out = {'classes': {}, 'top': prog['top'], 'n': prog['n']}
+  extra = {}
+  for cid, (body, ret) in prog['classes'].items():
+    new = []
+    fresh = [10000]
+
+    def tmp():
+      fresh[0] += 1
+      return fresh[0]
+    for s in body:
+      if s[0] == 'child' and len(s) == 5:
+        tc = TCODE[s[4]] + s[2]
+        extra[str(tc)] = s[2]
+        new.append(['child', s[1], tc, s[3]])
+      elif s[0] == 'ctl':
+        _, xv, kind, branches, arg = s
+        z = tmp()
+        new.append(['let', z, arg])
+        if kind == 'while':
+          stmts, ret_b = branches[0]
+          for _ in range(sel['while']):
+            for t in stmts:
+              new.append(['varset', t[1], t[2], subst_in(t[3], z)])
+            z2 = tmp()
+            new.append(['let', z2, subst_in(ret_b, z)])
+            z = z2
+          new.append(['let', xv, ['loc', z]])
+        else:
+          stmts, ret_b = branches[sel[kind]]
+          for t in stmts:
+            new.append(['varset', t[1], t[2], subst_in(t[3], z)])
+          new.append(['let', xv, subst_in(ret_b, z)])
+      else:
+        new.append(s)
+    out['classes'][cid] = (new, ret)
+  for tc, base in extra.items():
+    out['classes'][tc] = None      # filled below (a transformed class has the body of its base class)
+  for tc, base in extra.items():
+    out['classes'][tc] = out['classes'][str(base)]
+  return out
